@@ -161,6 +161,19 @@ class PartialModel:
         return self.__partial_src__.parse_obj(fields)
 
     @classmethod
+    def _construct_from(cls, values, fields_set=None):
+        """Create an instance with given values, without validation.
+
+        Unlike `construct(**values)` it also works for values with keys that collide
+        with a parameter of `construct` (they can occur as names of extra fields).
+        """
+        ret = cls.construct()  # type: ignore
+        fields_set = set(values.keys()) if fields_set is None else fields_set
+        ret.__dict__.update(values)
+        object.__setattr__(ret, "__fields_set__", set(fields_set))
+        return ret
+
+    @classmethod
     def to_partial(cls, obj, *, ignore_invalid: bool = False):
         """Transform `obj` into a new instance of this partial model.
 
@@ -174,7 +187,7 @@ class PartialModel:
         """
         if isinstance(obj, (cls, cls.__partial_src__)):
             # safe, because subclasses are "stricter"
-            return cls.construct(**obj.__dict__)  # type: ignore
+            return cls._construct_from(obj.__dict__)
 
         if ignore_invalid:
             # validate data and keep only valid fields
@@ -182,7 +195,7 @@ class PartialModel:
             if isinstance(obj, BaseModel):
                 obj = obj.dict(exclude_none=True)  # type: ignore
             data, fields, _ = validate_model(cls, dict(obj))  # type: ignore
-            return cls.construct(_fields_set=fields, **data)  # type: ignore
+            return cls._construct_from(data, fields)
 
         # parse a dict or another pydantic model
         if isinstance(obj, BaseModel):
